@@ -157,6 +157,22 @@ CHECKS = {
             "value, invariance under local unitaries and party choice, hierarchy level 1 = PPT value, level 2 <= level 1 and >= separable value, closed forms 1/2 and 7/8.",
             "PPT = separable on 2x2 / 2x3 makes the bracket two-sided for level 2; CVXOPT breakdowns of the primal program (picos issue 341, >1 CPU-s guard) are counted "
             "as indeterminate; level >= 3 and 3x3 out of bounds"),
+    "C10": ("exploration",
+            "exhaustive enumeration of all catalogue sub-ensembles x priors x forms on the real code vs certified primal/dual brackets and arithmetic certificates",
+            "All subsets of size 2..3 (thorough up to 5) of the ket catalogue for d=2,3 (thorough d=4), mixed ensembles from the density catalogue, x priors {uniform, ramp, "
+            "seed-derived} x input form {1-D, column, density matrix} x strategy x primal/dual: toqito's value must lie in a bracket [L,U] from the harness's own SDP pair "
+            "(cvxpy+CLARABEL) whose points are repaired and verified feasible by eigvalsh / traces; toqito's returned operators are checked arithmetically (valid POVM, attains "
+            "the value, Y = sum p_i rho_i M_i dual feasible); Helstrom closed form, 1 on orthogonal sets, >= max prior, >= pretty-good measurement, unitary and relabelling "
+            "invariance, unambiguous <= min-error, 0 on linearly dependent sets, 1-|<psi|phi>|, primal = dual, is_distinguishable on margin cases.",
+            "picos exposes only cvxopt here; primal forms are called with cvxopt_kktsolver='ldl' and an iteration cap (picos issue 341); tolerance 1e-4 (certificate 1e-3)"),
+    "C11": ("exploration",
+            "exhaustive enumeration of all catalogue sub-ensembles x priors x forms on the real code vs certified brackets; named antidistinguishable sets",
+            "As C10 for state_exclusion: value inside the certified bracket of the minimum of sum p_i Tr(rho_i M_i), returned POVM valid and attaining it, Y <= p_i rho_i "
+            "lower-bound certificate, primal = dual, 0 <= value <= min prior, unitary / relabelling invariance; value = 0 exactly on antidistinguishable sets decided by the "
+            "harness's own bracket (trine, the BB84 states and their 3-subsets, Pusey-Barrett-Rudolph states on a theta grid bracketing the threshold at +-5..10 %) and positive "
+            "otherwise (margins 1e-9 / 1e-6); is_antidistinguishable and common_quantum_overlap agree with the value; trine / pusey_barrett_rudolph constructors; unambiguous "
+            "variant for primal/dual agreement where the solver returns.",
+            "as C10; CVXOPT failures of the unambiguous variant are indeterminate (the property allows it)"),
 }
 
 PENDING_REASON = "check not built yet in this session (work in progress; see DESIGN.md section 7 for the planned exploration)"
